@@ -22,7 +22,7 @@ EXPLANATION = (
     "single _file.write(data); shouldRotate implies size >= rotateLength (and a falsy rotateLength disables rotation); size is "
     "re-read from tell() on every open and advanced only by len(data); an existing file is opened without truncation and "
     "positioned at its end. Not decided: the byte-exact suffix property, multi-byte size accounting (size counts characters: "
-    "under-estimates only), DailyLogFile."
+    "under-estimates only), DailyLogFile. "
     "Every anchor function is also checked to be entered on every call (no memoising/wrapping decorator, duplicate definition or rebinding). "
 )
 ASSUMPTIONS = ["os.rename is atomic; glob returns every rotated file", "LogFile is used by one thread at a time (threadable.synchronize)"]
@@ -45,17 +45,23 @@ def _fmt_pair(e):
     return None
 
 
-def _render(e, env):
-    """Evaluate a log-file-name expression with self.path = 'P' and the loop variable bound."""
+_PATH_TEXTS = ("self.path", "glob.escape(self.path)")
+
+
+def _render(e, env, func=None):
+    """Evaluate a log-file-name expression with self.path = 'P' and the loop variable bound; locals with a single
+    definition in ``func`` are looked through (``old = "%s.%d" % (self.path, i)``)."""
+    if func is not None:
+        e = resolve(e, func, keep=set(env))
     fp = _fmt_pair(e)
     if fp is None:
-        if src(e) == "self.path":
+        if src(e) in _PATH_TEXTS:
             return "P"
         return None
     fmt, args = fp
     vals = []
     for a in args:
-        if src(a) == "self.path":
+        if src(a) in _PATH_TEXTS:
             vals.append("P")
         else:
             try:
@@ -171,11 +177,11 @@ def _s_rotate(ctx, S):
     removes = [(n, c) for n, c in node_calls(g, lambda c: call_name(c) in ("os.remove", "os.unlink")) if n in body_nodes]
     ctx.check(len(renames) == 1, "shift/rename-i-to-i-plus-1", q, f"{len(renames)} shifting renames in the loop (one expected)")
     for n, c in renames:
-        ok = len(c.args) == 2 and all(_render(c.args[0], {var: k}) == f"P.{k}" and _render(c.args[1], {var: k}) == f"P.{k + 1}" for k in (1, 2, 9, 10, 99))
+        ok = len(c.args) == 2 and all(_render(c.args[0], {var: k}, f) == f"P.{k}" and _render(c.args[1], {var: k}, f) == f"P.{k + 1}" for k in (1, 2, 9, 10, 99))
         ctx.check(ok, "shift/rename-i-to-i-plus-1", ctx.construct(q, "os.rename(<path.i>, <path.i+1>)"),
                   f"the shifting rename is not path.i -> path.(i+1): {src(c)} (a retained log is overwritten or the sequence gets a hole / wrong order)")
     for n, c in removes:
-        ok = len(c.args) == 1 and all(_render(c.args[0], {var: k}) == f"P.{k}" for k in (1, 7, 10))
+        ok = len(c.args) == 1 and all(_render(c.args[0], {var: k}, f) == f"P.{k}" for k in (1, 7, 10))
         ctx.check(ok, "retention/removes-file-i", ctx.construct(q, "os.remove(<path.i>)"), f"the file removed is not path.i: {src(c)}")
         asserts = edge_asserts(g, n)
         notnone = any((a := asserted_is(t, lab)) is not None and not a[2] and src(a[0]) == "self.maxRotatedFiles" and src(a[1]) == "None" for t, lab in asserts)
@@ -192,6 +198,13 @@ def _s_rotate(ctx, S):
     w = g.path([d for d, l in g.succ[lp.id] if l == "iter"], [lp.id], avoid=acts, edge_ok=no_exc)
     ctx.check(w is None, "shift/every-file-moved-or-removed", ctx.construct(q, "loop body"),
               "an iteration can leave file i in place: the next rename (i-1 -> i) overwrites it", witness=g.describe(w))
+    for n in acts:
+        # a failing rename/remove of file i must abort the rotation: if it is swallowed, the next rename (i-1 -> i) overwrites file i
+        starts = [d for d, l in g.succ[n] if l == "exc"]
+        w = g.path(starts, [lp.id] + [x for x, _ in node_calls(g, lambda c: call_name(c) in ("os.rename", "os.replace")) if x not in body_nodes], strict=False) if starts else None
+        ctx.check(w is None, "shift/failed-shift-aborts-rotation", ctx.construct(q, g.node(n).ast if not isinstance(g.node(n).ast, ast.Try) else "shift"),
+                  "an OSError from moving / removing file i is swallowed and the rotation goes on: the next rename (i-1 -> i, finally current -> .1) "
+                  "overwrites the file that could not be moved - its content is lost", witness=g.describe(([n] + w) if w else None))
     for n, c in renames:
         # the rename branch is exactly the complement of the remove branch
         for rn, rc in removes:
@@ -203,7 +216,7 @@ def _s_rotate(ctx, S):
     opens = [n for n, c in node_calls(g, lambda c: call_name(c) == "self._openFile")]
     ctx.check(len(finals) == 1 and bool(closes) and bool(opens), "sequence/close-rename-open", q, "rotate() does not close, rename the current file and reopen")
     for n, c in finals:
-        ok = len(c.args) == 2 and _render(c.args[0], {}) == "P" and _render(c.args[1], {}) == "P.1"
+        ok = len(c.args) == 2 and _render(c.args[0], {}, f) == "P" and _render(c.args[1], {}, f) == "P.1"
         ctx.check(ok, "sequence/current-becomes-1", ctx.construct(q, "os.rename(<path>, <path.1>)"),
                   f"the current file is not renamed to path.1 (the slot freed by the shift): {src(c)}")
         ctx.check(g.must_precede(closes, [n], exc=False) is None, "sequence/close-rename-open", ctx.construct(q, "close before rename"),
@@ -373,6 +386,9 @@ MUTANTS = [
     Mutant("current-to-wrong-slot", LOG, "        os.rename(self.path, \"%s.1\" % self.path)", "        os.rename(self.path, \"%s.0\" % self.path)", expect_rule="sequence/current-becomes-1"),
     Mutant("rotated-file-list-cached", LOG, "    def listLogs(self):\n", "    @functools.lru_cache(maxsize=None)\n    def listLogs(self):\n",
            more=[(LOG, "import glob\n", "import functools\nimport glob\n")], expect_rule="anchor/body-entered-on-every-call"),
+    Mutant("failed-shift-ignored", LOG, "            else:\n                os.rename(\"%s.%d\" % (self.path, i), \"%s.%d\" % (self.path, i + 1))\n",
+           "            else:\n                try:\n                    os.rename(\"%s.%d\" % (self.path, i), \"%s.%d\" % (self.path, i + 1))\n                except OSError:\n                    pass\n",
+           expect_rule="shift/failed-shift-aborts-rotation"),
     Mutant("sort-before-last-append", LOG, "            except ValueError:\n                pass\n        result.sort()\n        return result", "            except ValueError:\n                pass\n        return result",
            expect_rule="order/listLogs-ascending"),
     Mutant("access-test-dropped", LOG, "        if not (os.access(self.directory, os.W_OK) and os.access(self.path, os.W_OK)):\n            return\n        logs = self.listLogs()",
@@ -387,6 +403,9 @@ SILENT = [
     Silent("listLogs-returns-sorted-copy", LOG, "        result.sort()\n        return result", "        return sorted(result)"),
     Silent("shouldRotate-as-if-chain", LOG, "        return self.rotateLength and self.size >= self.rotateLength",
            "        if not self.rotateLength:\n            return False\n        return self.size >= self.rotateLength"),
+    Silent("shift-names-in-locals", LOG, "                os.rename(\"%s.%d\" % (self.path, i), \"%s.%d\" % (self.path, i + 1))",
+           "                old = \"%s.%d\" % (self.path, i)\n                new = \"%s.%d\" % (self.path, i + 1)\n                os.rename(old, new)"),
+    Silent("glob-pattern-escaped", LOG, "        for name in glob.glob(\"%s.*\" % self.path):", "        for name in glob.glob(\"%s.*\" % glob.escape(self.path)):"),
     Silent("branches-swapped", LOG, "            if self.maxRotatedFiles is not None and i >= self.maxRotatedFiles:\n                os.remove(\"%s.%d\" % (self.path, i))\n            else:\n                os.rename(\"%s.%d\" % (self.path, i), \"%s.%d\" % (self.path, i + 1))",
            "            if self.maxRotatedFiles is None or i < self.maxRotatedFiles:\n                os.rename(\"%s.%d\" % (self.path, i), \"%s.%d\" % (self.path, i + 1))\n            else:\n                os.remove(\"%s.%d\" % (self.path, i))"),
 ]
